@@ -118,6 +118,74 @@ def check_vector(case, ctx):
         ctx.sample({"example": "%s:%s:%s" % tuple(spell(x) for x in case["ranges"][0]), "expected": model_range(*case["ranges"][0])[:6]})
 
 
+# ---- arbitrary strings over the vector alphabet ---------------------------------------------
+def fuzz_strategy(tier):
+    piece = st.one_of(st.integers(-20, 20).map(str), st.integers(-200, 200).map(lambda i: repr(i / 8.0)),
+                      st.sampled_from(["", "-", ".", "1.", ".5", "-.5", "--1", "1.2.3", "0", "00", "-0", "1-2", "3.", "1e3"]))
+    structured = st.lists(st.lists(piece, min_size=1, max_size=4).map(":".join), min_size=1, max_size=4).map(",".join)
+    raw = st.text(alphabet="-0123456789.:,", min_size=0, max_size=12)
+    return st.one_of(structured, structured, raw).map(lambda t: {"text": t})
+
+
+def model_parse(text):
+    """Documented syntax: comma-separated items; an item is a number, a:b or a:step:b (step != 0, end included).
+    Returns the list, or None when the text is malformed."""
+    if text == "" or any(ch not in "-0123456789.:," for ch in text):
+        return None
+    out = []
+    for item in text.split(","):
+        parts = item.split(":")
+        if len(parts) > 3:
+            return None
+        nums = []
+        for w in parts:
+            try:
+                if w == "" or w[-1:] in "eE":
+                    return None
+                nums.append(float(w))
+            except ValueError:
+                return None
+        if len(nums) == 1:
+            out.append(nums[0])
+        else:
+            a, b = nums[0], nums[-1]
+            s_ = nums[1] if len(nums) == 3 else 1.0
+            if s_ == 0:
+                return None
+            out += model_range(a, s_, b)
+    return out
+
+
+def check_fuzz(case, ctx):
+    import verif.util
+    from ..runner import repo_frame_key
+    text = case["text"]
+    exp = model_parse(text)
+    ctx.evals += 0
+    if exp is not None and len(exp) > 5000:
+        return
+    if exp is None:
+        ctx.label("malformed")
+    else:
+        ctx.label("well-formed")
+        if ":" in text and "," in text:
+            ctx.nt(text)
+            ctx.sample({"text": text, "expected": exp[:8]})
+    try:
+        got = [float(x) for x in verif.util.parse_numbers(text)]
+    except SystemExit as e:
+        if exp is not None:
+            ctx.fail("C13/vector/fuzz/rejected-valid", case, "parse_numbers(%r) stopped with an error, the documented syntax gives %r" % (text, exp[:8]))
+        return
+    except Exception as e:
+        ctx.fail("C13/reject/uncaught/malformed-vector", case, "parse_numbers(%r): uncaught %s: %s (%s)" % (text, type(e).__name__, e, repo_frame_key(e)))
+        return
+    if exp is None:
+        ctx.fail("C13/reject/malformed-vector", case, "parse_numbers(%r) accepted a malformed vector and returned %r" % (text, got[:8]))
+    elif len(got) != len(exp) or not all(cmpx.close(g, e, 1e-7) for g, e in zip(got, exp)):
+        ctx.fail("C13/vector/fuzz", case, "parse_numbers(%r) = %r, documented syntax gives %r" % (text, got[:10], exp[:10]))
+
+
 def date_items(tier):
     anchors = [20000101, 20000229, 20000301, 20010228, 20011231, 20120229, 20121231, 21000228, 19991231]
     items = []
@@ -543,7 +611,7 @@ def check_cmd(case, ctx):
         if hdr[-n_in:] != want:
             ctx.fail("C13/model/-leg", sub, "argv: %s: header %r, -leg gives %r" % (" ".join(short), hdr[-n_in:], want))
     uses_T = bool(cmd.get("T"))
-    tol = 3e-5 if uses_T else (2e-6 if cmd["type"] == "csv" else 2e-4)
+    tol = 3e-5 if uses_T else 1e-9
     for k, (row, erow) in enumerate(zip(rows, exp)):
         for i in range(n_in):
             try:
@@ -555,7 +623,7 @@ def check_cmd(case, ctx):
             if math.isnan(e) or math.isinf(e):
                 ok = math.isnan(g) or math.isinf(g) or (cmd.get("agg") in ("count", "sum") and g == 0)
             else:
-                ok = cmpx.close(g, float("%.*g" % (digits, e)), tol)
+                ok = cmpx.printed_ok(g, e, digits, rel=tol)
             if not ok:
                 which = "-T" if uses_T else ("-agg" if cmd.get("agg") else ("-acc" if cmd.get("acc") else cmd["metric"]))
                 ctx.fail("C13/model/" + which, sub, "argv: %s: row %d input %d prints %r, documented semantics give %r" % (" ".join(short), k, i, g, e))
@@ -578,5 +646,6 @@ def campaigns(tier):
         Enum("vector-grid", vector_items, check_vector, "24x24 start/end values x 10 steps in blocks of 200, three spellings each"),
         Enum("date-ranges", date_items, check_dates, "all date pairs (every 3rd day) within +-40 days of 9 boundary dates x steps 1,7,31"),
         Enum("reject", reject_items, check_reject, "the documented rejection classes"),
+        Hyp("vector-fuzz", fuzz_strategy, check_fuzz, quick=8000, thorough=400000, budget_quick=30, budget_thorough=600),
         Hyp("commands", cmd_strategy, check_cmd, quick=2400, thorough=40000, budget_quick=60, budget_thorough=1800),
     ]
